@@ -21,8 +21,4 @@ def assignedOrientation (pol : Polarity) (rowOrient cur : Orient) : Orient :=
 def rowAllowed (pol : Polarity) (rowOrient : Orient) : Bool :=
   Gen.cellOrientationInRow pol rowOrient != Orient.INVALID
 
-/-- detailed placement before `fix: c04-invalid-rows`: every row is accepted (kept for the
-witness `C04.detailed_orient_fails_unfixed`) -/
-def legacyRowAllowed (_pol : Polarity) (_rowOrient : Orient) : Bool := true
-
 end ColoVerif.OrientRule
